@@ -495,6 +495,11 @@ impl Deb822 {
     fn insert_empty_paragraph(&mut self, index: Option<usize>) -> Paragraph {
         let paragraph = Paragraph::new();
         let mut to_insert = vec![];
+        if index.is_none() {
+            // Appending: the blank line below only separates the paragraphs if
+            // the text in front of it ends with a line end.
+            ensure_trailing_newline(&self.0);
+        }
         if self.0.children().count() > 0 {
             let mut builder = GreenNodeBuilder::new();
             builder.start_node(EMPTY_LINE.into());
